@@ -533,9 +533,6 @@ func (g *gen) object(depth int) slip.Object {
 		g.ctx.Hist("node:vector")
 		return slip.NewVector(n, slip.TrueSymbol, nil, l, r.Bool())
 	default:
-		if g.safe && (g.cfg.base != 10 || g.cfg.radix) {
-			return g.object(depth - 1)
-		}
 		rank := 2 + r.Intn(2)
 		dims := make([]int, rank)
 		for i := range dims {
@@ -941,6 +938,37 @@ func repairedCases() (out []repairedCase) {
 		out = append(out, repairedCase{"C03-13", c, chars})
 		out = append(out, repairedCase{"C03-13", c, slip.NewVector(len(chars), slip.TrueSymbol, nil, chars, false)})
 		out = append(out, repairedCase{"C03-13", c, slip.List{slip.Character('('), slip.Tail{Value: slip.Character(')')}}})
+	}
+	// C03-14: arrays of rank 2, 3 and 10 under every kind of radix prefix and in bases where the rank has a letter
+	mk := func(dims []int) slip.Object {
+		n := 1
+		for _, d := range dims {
+			n *= d
+		}
+		var build func(di, base int) slip.List
+		build = func(di, base int) slip.List {
+			l := make(slip.List, dims[di])
+			stride := 1
+			for _, d := range dims[di+1:] {
+				stride *= d
+			}
+			for i := range l {
+				if di == len(dims)-1 {
+					l[i] = slip.Fixnum(int64(base + i - 3))
+				} else {
+					l[i] = build(di+1, base+i*stride)
+				}
+			}
+			return l
+		}
+		return slip.NewArray(dims, slip.TrueSymbol, nil, build(0, 0), false)
+	}
+	for _, dims := range [][]int{{2, 2}, {1, 3}, {2, 1, 2}, {1, 1, 1, 1, 1, 1, 1, 1, 1, 2}, {1, 1, 1, 1, 1, 1, 1, 1, 1, 1, 1, 1, 1, 1, 1, 1, 3}} {
+		for _, c := range []cfg{with(flat, func(c *cfg) { c.radix = true }), with(flat, func(c *cfg) { c.base, c.radix = 2, true }), with(pretty, func(c *cfg) { c.base, c.radix = 16, true }),
+			with(pretty, func(c *cfg) { c.base, c.radix, c.margin = 8, true, 7 }), with(flat, func(c *cfg) { c.base, c.radix = 36, true }), with(flat, func(c *cfg) { c.base = 16 }), with(flat, func(c *cfg) { c.base = 3 })} {
+			out = append(out, repairedCase{"C03-14", c, mk(dims)})
+			out = append(out, repairedCase{"C03-14", c, slip.List{mk(dims), slip.Symbol("x")}})
+		}
 	}
 	return
 }
